@@ -21,9 +21,10 @@ inductive CmpMode where
 /-- How `__hash__` uses a field. `plain`: `hash(self.f)` inside the hashed tuple;
     `content`: a content digest (`hash_df_runtime(df)`, `ImmutableMatrix(m)`);
     `orderedItems`: `hash(tuple(d.items()))`; `itemSet`: `hash(frozenset(d.items()))`;
-    `contentPart`: a digest of a part of the contents (`frozenset(g.nodes)`). -/
+    `contentPart`: a digest of a part of the contents (`frozenset(g.nodes)`);
+    `orderedContent`: a digest that depends on the insertion order of the contents (`tuple(g.edges.data('rate'))`). -/
 inductive HashMode where
-  | plain | content | contentPart | orderedItems | itemSet
+  | plain | content | contentPart | orderedContent | orderedItems | itemSet
   deriving DecidableEq, Repr, Inhabited
 
 /-- Python values as far as `==`/`hash` of the value classes can see them. -/
@@ -31,7 +32,7 @@ inductive Val where
   /-- str / int / float / bool / None / symengine expression: `==` and `hash` agree (trusted). -/
   | atom (s : String)
   /-- an object with default identity `==`/`hash` (networkx graph, DataFrame); `content` is a canonical rendering of what it holds -/
-  | ident (id : Nat) (content : String)
+  | ident (id : Nat) (content : String)   -- `content` = canonical (order-free) rendering, then `#`, then an insertion-order rendering
   /-- a pandas DataFrame: identity object that is *unhashable*; `content` is a digest of values, dtypes, columns, index -/
   | frame (id : Nat) (content : String)
   /-- a `dict` in insertion order (keys distinct), entries rendered canonically -/
@@ -84,19 +85,30 @@ def dictEq (a b : List (String × String)) : Bool :=
 
 /-! ### per-field modes (non-recursive helpers; `dflt` is the plain result) -/
 
-/-- What a content digest of a field sees: the contents of an identity object. -/
-def contentKey (dflt : Val) : Val → Val
-  | .ident _ c => .atom c
-  | .frame _ c => .atom c
-  | _ => dflt
+/-- The canonical, order-free part of a content rendering: everything before the first `#`.
+    (The harness renders a graph as `nodes|edges#edges-in-insertion-order`.) -/
+def canonOf (c : String) : String := String.ofList (c.toList.takeWhile (· != '#'))
 
-/-- The part of a content rendering before the first `|` (the harness renders a graph as `nodes|edges`). -/
-def partOf (c : String) : String := String.ofList (c.toList.takeWhile (· != '|'))
+/-- The first part (before `|`) of the canonical rendering: the nodes of a graph. -/
+def partOf (c : String) : String := String.ofList ((canonOf c).toList.takeWhile (· != '|'))
+
+/-- What a content digest of a field sees: the canonical contents of an identity object. -/
+def contentKey (dflt : Val) : Val → Val
+  | .ident _ c => .atom (canonOf c)
+  | .frame _ c => .atom (canonOf c)
+  | _ => dflt
 
 /-- What a digest of a part of the contents sees. -/
 def contentPartKey (dflt : Val) : Val → Val
   | .ident _ c => .atom (partOf c)
   | .frame _ c => .atom (partOf c)
+  | _ => dflt
+
+/-- What a digest of an insertion-ordered iteration over the contents sees: the whole rendering,
+    including the order-dependent part. -/
+def orderedKey (dflt : Val) : Val → Val
+  | .ident _ c => .atom c
+  | .frame _ c => .atom c
   | _ => dflt
 
 /-- What `hash(tuple(d.items()))` sees: the entries in insertion order. -/
@@ -124,8 +136,8 @@ def keyEqv : Val → Val → Bool
 
 /-- Content comparison of a field (`to_dict_of_dicts(g) == …`, `df.equals(…)`). -/
 def eqContent (dflt : Bool) : Val → Val → Bool
-  | .ident _ c, .ident _ d => c == d
-  | .frame _ c, .frame _ d => c == d
+  | .ident _ c, .ident _ d => canonOf c == canonOf d
+  | .frame _ c, .frame _ d => canonOf c == canonOf d
   | _, _ => dflt
 
 /-- The part of the hash key contributed by a field hashed in mode `m`. -/
@@ -134,6 +146,7 @@ def fieldKey (m : HashMode) (plainKey : Val) (h : Val) : Val :=
   | .plain => plainKey
   | .content => contentKey plainKey h
   | .contentPart => contentPartKey plainKey h
+  | .orderedContent => orderedKey plainKey h
   | .orderedItems => itemsKey plainKey h
   | .itemSet => itemSetKey plainKey h
 
@@ -162,6 +175,7 @@ def fieldLawful (f_hash : Option HashMode) (f_cmp : Option CmpMode) (dflt : Bool
   | some .plain, some .content => !isIdentLike h && dflt
   | some .content, some .plain => !isIdentLike h && dflt
   | some .contentPart, some .plain => !isIdentLike h && dflt
+  | some .orderedContent, some _ => !isIdentLike h && dflt
   | some .orderedItems, some _ =>
     match h with
     | .dict kvs => decide (kvs.length ≤ 1)
@@ -283,6 +297,7 @@ def fieldCheck (ok : Kind → Bool) (f : FieldSpec) : Bool :=
   | some .plain, some .content => f.kind.noIdent && ok f.kind
   | some .content, some .plain => f.kind.noIdent && ok f.kind
   | some .contentPart, some .plain => f.kind.noIdent && ok f.kind
+  | some .orderedContent, some _ => f.kind.noIdent && ok f.kind
   | some .orderedItems, some _ => f.kind.noIdent && f.kind.noDict && ok f.kind
   | some .itemSet, some _ => f.kind.noIdent && ok f.kind
 
@@ -316,6 +331,7 @@ def directBad (sp : ClassSpec) : List String :=
     | some .plain, some .content => !f.kind.noIdent
     | some .content, some .plain => !f.kind.noIdent
     | some .contentPart, some .plain => !f.kind.noIdent
+    | some .orderedContent, some _ => !f.kind.noIdent
     | some .orderedItems, some _ => !(f.kind.noIdent && f.kind.noDict)
     | some .itemSet, some _ => !f.kind.noIdent)).map (·.name)
 
